@@ -31,14 +31,28 @@ impl<B: Backend> SubSt<B> {
     }
 }
 
+/// A task whose waker owns it: the subscriber lives inside, the observable's waker list may be the
+/// only thing keeping it alive.
+struct ParkedTask<S> {
+    sub: std::sync::Mutex<Option<S>>,
+}
+impl<S: Send + 'static> std::task::Wake for ParkedTask<S> {
+    fn wake(self: Arc<Self>) {
+        // the executor that would re-poll the task is gone; the task is dropped with this Arc
+    }
+}
+
 struct World<B: Backend> {
     uniq: Option<B::U>,
     shared: Vec<Option<B::S>>,
     weaks: Vec<Option<B::W>>,
     subs: Vec<Option<SubSt<B>>>,
+    /// model indices of subscribers living in abandoned parked tasks
+    parked: Vec<usize>,
     model: Model,
     audit: bool,
     counts: bool,
+    adopt: bool,
     step: usize,
     violation: Option<Violation>,
     counters: Counters,
@@ -100,6 +114,10 @@ impl<B: Backend> World<B> {
     fn after_owner_step(&mut self, notified: bool, what: &str) {
         if notified {
             self.notifying_steps += 1;
+            // the waker list was drained: abandoned parked tasks (and their subscribers) are gone
+            for mj in self.parked.drain(..) {
+                self.model.subs[mj] = None;
+            }
             let mut missed = Vec::new();
             for (j, s) in self.subs.iter().enumerate() {
                 if let Some(s) = s {
@@ -477,6 +495,14 @@ impl<B: Backend> World<B> {
                 let Some(w) = live_idx(&self.weaks, *k) else { return };
                 let got = B::w_upgrade(self.weaks[w].as_ref().unwrap());
                 let want = self.model.owners > 0;
+                if got.is_some() && !want && self.adopt {
+                    // C19 mode: adopt the handle and let the count oracle judge
+                    self.counters.inc("probe.unexpected_upgrade_adopted");
+                    self.shared.push(got);
+                    self.model.owners += 1;
+                    self.check_counts();
+                    return;
+                }
                 if got.is_some() != want {
                     self.violate(&["C03"], "upgrade_result", format!("WeakObservable::upgrade returned {} while {} owner(s) exist", if got.is_some() { "Some" } else { "None" }, self.model.owners));
                     return;
@@ -585,6 +611,44 @@ impl<B: Backend> World<B> {
                 self.check_counts();
                 return;
             }
+            Park(j) => {
+                let Some(j) = live_idx(&self.subs, *j) else { return };
+                let st = self.subs[j].take().unwrap();
+                let mj = st.mj;
+                let task = Arc::new(ParkedTask { sub: std::sync::Mutex::new(Some(st.sub)) });
+                let wk = std::task::Waker::from(task.clone());
+                let mut cx = Context::from_waker(&wk);
+                let r = {
+                    let mut g = task.sub.lock().unwrap();
+                    B::sub_poll(g.as_mut().unwrap(), PollKind::Next, &mut cx)
+                };
+                drop(wk);
+                let want = self.model.poll(mj);
+                let got = match r {
+                    Poll::Pending => Exp::Pending,
+                    Poll::Ready(None) => Exp::End,
+                    Poll::Ready(Some(v)) => Exp::Value(v),
+                };
+                if got != want {
+                    self.violate(&["C01"], "poll_result_mismatch", format!("poll of subscriber {j} inside a task returned {:?}, expected {:?}", got, want));
+                    return;
+                }
+                if got == Exp::Pending {
+                    // the executor goes away; the registered waker is now the task's only owner
+                    self.parked.push(mj);
+                    self.counters.inc("fault.F4_task_parked_and_abandoned");
+                    self.faults += 1;
+                    drop(task);
+                } else {
+                    let sub = task.sub.lock().unwrap().take().unwrap();
+                    self.subs[j] = Some(SubSt { sub, mj, armed: None, ever_polled: true, last_ready: got != Exp::End, done: got == Exp::End, polls: st.polls + 1 });
+                    if matches!(got, Exp::Value(_)) {
+                        self.items += 1;
+                    }
+                }
+                self.check_counts();
+                return;
+            }
             PollWoken(k, f) => {
                 let r: Vec<usize> = (0..self.subs.len()).filter(|&j| self.subs[j].as_ref().map_or(false, |s| s.runnable())).collect();
                 if !r.is_empty() {
@@ -621,9 +685,11 @@ pub fn run_generic<B: Backend>(case: &Case) -> Outcome {
         shared: Vec::new(),
         weaks: Vec::new(),
         subs: Vec::new(),
+        parked: Vec::new(),
         model: Model::new(cfg.initial),
         audit: cfg.audit_every_step,
         counts: cfg.counts,
+        adopt: cfg.adopt_unexpected_upgrade,
         step: 0,
         violation: None,
         counters: Counters::default(),
